@@ -99,6 +99,8 @@ type wfile struct {
 	Ref     string `json:"formatter_output"`
 	RefOK   bool   `json:"parses"`
 	Target  bool   `json:"targeted"`
+	Shape   string `json:"shape,omitempty"`                  // part (vi): how the text is built
+	Size    int    `json:"formatter_output_bytes,omitempty"` // part (vi)
 }
 
 func (f wfile) rel() string { return strings.TrimPrefix(f.Name, f.Module+"/") }
